@@ -2,7 +2,7 @@
 
 State space (product bound, exhaustive): continuous LPs in n <= 3 variables written through the API
     front end {ro.Model, rsome.lp.Model} x n x row blocks (1..B blocks of 1-2 rows each, array form, every mix of
-    <=, >=, ==, two ways of writing a block) x Bounds pattern (none / whole variable / slices / array valued /
+    <=, >=, ==; written A@x<=b, A@x-b<=0, thorough also reflected b>=A@x) x Bounds pattern (none / whole variable / slices / array valued /
     zero / fixed; never more than one upper and one lower bound constraint per entry) x position of the bounds and
     of the guard rows in the st() order x min/max x objective directions x interface {default, ECOS, Gurobi}.
 Every model is feasible by construction (all rows and bounds hold with margin at a known point) and bounded
